@@ -2,7 +2,7 @@ SPECIFICATION Spec
 CONSTANTS
   IncMax = 3
   TokenMod = 4
-  Fixes = {"654ac52", "3f5c312", "66b62cc", "7418747", "f6702a7", "73fde95", "ea3a2f4", "6ca130a"}
+  Fixes = {"654ac52", "3f5c312", "66b62cc", "7418747", "f6702a7", "73fde95", "ea3a2f4", "6ca130a", "a23716c"}
   ProbeMod = 4
   Sim = TRUE
   Forge = TRUE
